@@ -26,11 +26,18 @@ def _snap(x):
 
 
 def _same(a, b):
+    try:
+        return _same0(a, b)
+    except Exception:
+        return False
+
+
+def _same0(a, b):
     if isinstance(a, np.ndarray) or isinstance(b, np.ndarray):
         a, b = np.asarray(a), np.asarray(b)
         return a.shape == b.shape and bool(np.array_equal(a, b, equal_nan=True))
     if isinstance(a, (list, tuple)) and isinstance(b, (list, tuple)):
-        return len(a) == len(b) and all(_same(x, y) for x, y in zip(a, b))
+        return len(a) == len(b) and all(_same0(x, y) for x, y in zip(a, b))
     if hasattr(a, "critical_pairs") and hasattr(b, "critical_pairs"):
         return _same(a.critical_pairs, b.critical_pairs)
     if hasattr(a, "values") and hasattr(b, "values") and not isinstance(a, dict):
